@@ -68,7 +68,23 @@ fn numeric_sites(act: &SX) -> Vec<Vec<usize>> {
 /// file, in creation order: declaration order matters for them, so the next one goes right after.
 fn rewrite(r: &mut Rng, forms: &mut Vec<SX>, files: &mut Vec<(String, String)>, n: usize, src: &[String], ntop: &mut usize) -> Option<&'static str> {
     let sites = layer_sites(forms);
-    match r.pick_w(&[22, 14, 14, 12, 10, 10, 10, 8, 14, 10]) {
+    match r.pick_w(&[22, 14, 14, 12, 10, 10, 10, 8, 14, 10, 8]) {
+        10 => {
+            // action -> (t! id (t! id action)): an expansion written inside a parameter of an
+            // expansion of the same template is not the template expanding itself
+            let (fi, ii) = *r.pick_opt(&sites)?;
+            let act = get_item(forms, fi, ii);
+            let name = format!("zi{n}");
+            let ti = *ntop;
+            *ntop += 1;
+            let mut e = act;
+            for _ in 0..r.range(2, 3) {
+                e = l(vec![a("t!"), a(name.clone()), e]);
+            }
+            set_item(forms, fi, ii, e);
+            forms.insert(ti, l(vec![a("deftemplate"), a(name), l(vec![a("p")]), a("$p")]));
+            Some("template-nested-in-own-parameter")
+        }
         9 => {
             // a number inside an action -> $var, and the action itself -> the first argument of a
             // two-parameter template whose SECOND parameter has the very name of that variable: the
